@@ -2759,3 +2759,124 @@ func E9EndpointPair(c *core.Ctx, r *core.Report) {
 	r.Count("E9.endpoint-pair-sites", n)
 	r.Floor("E9.endpoint-pair-sites", 3)
 }
+
+// E9TangentBothWays: a tangency test by angle covers the antiparallel direction as well.
+func E9TangentBothWays(c *core.Ctx, r *core.Report) {
+	r.Rule("E9.tangent-both-ways", "intersectionLineQuad and intersectionLineCube flag a hit as tangent when the curve's direction at the hit is parallel to the line, whichever way the curve is traversed: windings()/Crossings() skip an interior tangent hit, and a contour and its reverse touch a ray at the same point. The tangent operand handed to Intersections.add (locals resolved through all their assignments) is built from direction-symmetric tests — a vanishing Dot/PerpDot, equality of points, a root count — or, where it compares angles with angleEqual(a, b), it also contains angleEqual(a, b ± π). With the parallel half alone, a ray touching the top of a counter-clockwise Bézier contour is counted as a crossing: Windings and Crossings are off by one there and Contains reports an outside point as inside")
+	p := c.MustPkg("")
+	info := p.TypesInfo
+	n := 0
+	for _, fname := range []string{"intersectionLineQuad", "intersectionLineCube"} {
+		fd := core.MustFuncDecl(p, fname)
+		r.Func("canvas." + fname)
+		// all assignments of bool locals
+		defs := map[types.Object][]ast.Expr{}
+		ast.Inspect(fd.Body, func(m ast.Node) bool {
+			as, ok := m.(*ast.AssignStmt)
+			if !ok || len(as.Lhs) != len(as.Rhs) {
+				return true
+			}
+			for i, l := range as.Lhs {
+				if id, ok := l.(*ast.Ident); ok {
+					o := core.ObjOf(info, id)
+					if b, ok := o.Type().Underlying().(*types.Basic); ok && b.Kind() == types.Bool {
+						defs[o] = append(defs[o], as.Rhs[i])
+					}
+				}
+			}
+			return true
+		})
+		ord := 0
+		ast.Inspect(fd.Body, func(m ast.Node) bool {
+			call, ok := m.(*ast.CallExpr)
+			if !ok || len(call.Args) != 7 {
+				return true
+			}
+			se, ok := call.Fun.(*ast.SelectorExpr)
+			if !ok || se.Sel.Name != "add" {
+				return true
+			}
+			ord++
+			n++
+			key := fmt.Sprintf("canvas.%s|tangent operand of add #%d", fname, ord)
+			// angleEqual atoms reachable from the operand
+			var atoms []*ast.CallExpr
+			seen := map[types.Object]bool{}
+			var collect func(e ast.Expr)
+			collect = func(e ast.Expr) {
+				ast.Inspect(e, func(k ast.Node) bool {
+					switch x := k.(type) {
+					case *ast.CallExpr:
+						if f := core.CalleeOf(info, x); f != nil && f.Name() == "angleEqual" && len(x.Args) == 2 {
+							atoms = append(atoms, x)
+						}
+					case *ast.Ident:
+						o := core.ObjOf(info, x)
+						if ds, ok := defs[o]; ok && !seen[o] {
+							seen[o] = true
+							for _, d := range ds {
+								collect(d)
+							}
+						}
+					}
+					return true
+				})
+			}
+			collect(call.Args[5])
+			// strip a ± math.Pi term
+			base := func(e ast.Expr) (string, bool) {
+				e = core.Unparen(e)
+				if be, ok := e.(*ast.BinaryExpr); ok && (be.Op == token.ADD || be.Op == token.SUB) {
+					isPi := func(x ast.Expr) bool {
+						s, ok := core.Unparen(x).(*ast.SelectorExpr)
+						if !ok {
+							return false
+						}
+						pk, ok := s.X.(*ast.Ident)
+						return ok && pk.Name == "math" && s.Sel.Name == "Pi"
+					}
+					if isPi(be.Y) {
+						return squash(types.ExprString(be.X)), true
+					}
+					if be.Op == token.ADD && isPi(be.X) {
+						return squash(types.ExprString(be.Y)), true
+					}
+				}
+				return squash(types.ExprString(e)), false
+			}
+			type form struct{ plain, turned bool }
+			forms := map[string]*form{}
+			for _, a := range atoms {
+				// unordered pair of the two arguments' bases
+				b0, t0 := base(a.Args[0])
+				b1, t1 := base(a.Args[1])
+				k := b0 + "~" + b1
+				if b1 < b0 {
+					k = b1 + "~" + b0
+				}
+				if forms[k] == nil {
+					forms[k] = &form{}
+				}
+				if t0 != t1 {
+					forms[k].turned = true
+				} else {
+					forms[k].plain = true
+				}
+			}
+			bad := ""
+			for k, f := range forms {
+				if f.plain != f.turned {
+					bad = k
+				}
+			}
+			if bad == "" {
+				r.OK("E9.tangent-both-ways", key, c.Pos(call.Pos()), fmt.Sprintf("%d angle test(s), each with its half turn", len(atoms)))
+			} else {
+				r.Fail("E9.tangent-both-ways", key, c.Pos(call.Pos()), "the tangent flag compares the directions "+strings.ReplaceAll(bad, "~", " and ")+" with angleEqual in one orientation only: a curve that runs the other way through the touching point is not recognised as tangent and the touch is counted as a crossing")
+			}
+			return true
+		})
+	}
+	r.Count("E9.tangent-operands", n)
+	r.Floor("E9.tangent-operands", 2)
+}
